@@ -164,6 +164,10 @@ def allowed_locs(I, fc, entry_env, old_heap):
                     raise SpecError("bad modifies location %r" % loc)
             except Raised:
                 continue            # the location does not exist on this path (e.g. missing dict key)
+            except SpecError as e:
+                if "of None in clause" in str(e):
+                    continue        # an object on the way to the location is None on this path: nothing to allow
+                raise
             if o.tag == "none":
                 continue            # no such object on this path: nothing to allow
             if o.tag != "obj":
